@@ -50,7 +50,16 @@ SPECS = [
     {"name": "two selectors", "sels": [_c("fa", [_cap("w", "i0", 1)]), _c("fb", [_cap("w", "i1", 1)])],
      "mode": "imm"},
     {"name": "fa>u |min", "sels": [_c("fa", [_cap("u", "j0", 1)])], "mode": "imm", "reducer": "j0"},
+    # sibling calls under one call (the guide's `main(x, side(x as x2), negmul(!a))` shape)
+    {"name": "fa(w, fb(u), fc(!u))", "sels": [_c("fa", [_cap("w", "k0")], [_c("fb", [_cap("u", "k1")]),
+                                                                         _c("fc", [_cap("u", "k2", 1)])])],
+     "mode": "imm"},
+    {"name": "fb(fc(!w), fa(u))", "sels": [_c("fb", [], [_c("fc", [_cap("w", "l0", 1)]), _c("fa", [_cap("u", "l1")])])],
+     "mode": "imm"},
+    # the generator member (events of generator objects driven by the gen* operations are don't-care)
+    {"name": "ga>u", "sels": [_c("ga", [_cap("u", "m0", 1)])], "mode": "imm"},
 ]
+GEN_VALUE = 50000  # values bound by generator objects of the gen* operations are >= this
 
 BAD = {
     "unknown-var": (["fa > nonexistent"], {}),
@@ -117,6 +126,8 @@ class Sim:
         self.states = {k: HY.FnState(f) for k, f in F.RAW.items()}
         self.flags = set()
         self.max_active = 0
+        self.gens = {}
+        self.active_at_gen = {}
         F.DISPATCH.update(F.RAW)
         self.env = dict(F.RAW)
 
@@ -223,6 +234,51 @@ class Sim:
         if self.flags & {"nonlifo", "exc-exit", "refused", "exit-raised"} and self.max_active >= 2:
             self.flags.add("nontrivial")
 
+    # generator objects that stay suspended across activations / deactivations.  Their own
+    # events are don't-care (filtered out by value); what is checked is that starting,
+    # resuming, closing or dropping them never disturbs what the *driver's* calls deliver,
+    # nor the installed handlers / instrumentation state.
+    def _active_ids(self):
+        return sorted(r.id for r in self.recs if r.active)
+
+    def op_gen(self, k):
+        nid = 5000 + len(self.history)
+        node = {"id": nid, "fn": "ga", "u0": nid * 10 + 1, "w0": nid * 10 + 5, "ru": nid * 10 + 2, "rw": None,
+                "pre": [], "post": [], "via": False, "catch": False, "raises": False, "ret": nid * 10 + 9}
+        g = F.DISPATCH["ga"](node)
+        self.gens[k] = g
+        self.active_at_gen[k] = self._active_ids()
+        self._gstep(k, lambda: next(g))
+
+    def _gstep(self, k, fn):
+        try:
+            fn()
+        except StopIteration:
+            self.gens.pop(k, None)
+        except BaseException as e:
+            raise PropertyViolation("generator", f"driving generator {k} raised {HY.describe_exc(e)}",
+                                    extra={"bucket": "gen:" + HY.exc_bucket(e)})
+        if k in self.active_at_gen and self.active_at_gen[k] != self._active_ids():
+            self.flags.add("gen-across-change")
+            if self.max_active >= 1:
+                self.flags.add("nontrivial")
+
+    def op_gnext(self, k):
+        g = self.gens.get(k)
+        if g is not None:
+            self._gstep(k, lambda: next(g))
+
+    def op_gclose(self, k):
+        g = self.gens.pop(k, None)
+        if g is not None:
+            self._gstep(k, g.close)
+
+    def op_gdrop(self, k):
+        import gc
+
+        if self.gens.pop(k, None) is not None:
+            self._gstep(k, lambda: gc.collect(1))
+
     def op_bad(self, kind):
         from ptera.probe import Probe, OverridableProbe
 
@@ -322,6 +378,12 @@ class Sim:
     def cleanup(self):
         for r in self.recs:
             r.active = False
+        for g in list(self.gens.values()):
+            try:
+                g.close()
+            except BaseException:  # noqa
+                pass
+        self.gens.clear()
         for st in self.states.values():
             if st.is_clean():
                 st.force_clean()
@@ -331,7 +393,8 @@ class Sim:
 def _norm(rec):
     if rec.spec["mode"] == "total":
         return [{k: list(c.values) for k, c in ev.items()} for ev in rec.sink]
-    return list(rec.sink)
+    return [ev for ev in rec.sink
+            if not any(isinstance(v, int) and v >= GEN_VALUE for v in ev.values())]
 
 
 def _mini_plan():
@@ -578,9 +641,18 @@ def make_machine(rec, steps):
         def leave(self, by_exc):
             self._do(("leave", by_exc))
 
-        @rule(si=st.integers(0, len(SPECS) - 2))
+        @rule(si=st.integers(0, len(SPECS) - 1))
         def gact(self, si):
             self._do(("gact", si))
+
+        @rule(k=st.integers(0, 2))
+        def gen(self, k):
+            self._do(("gen", k))
+
+        @precondition(lambda self: self.sim.gens)
+        @rule(k=st.integers(0, 2), how=st.sampled_from(["gnext", "gclose", "gclose", "gdrop"]))
+        def gen_step(self, k, how):
+            self._do((how, k))
 
         @precondition(lambda self: self.sim.globals)
         @rule(k=st.integers(0, 5))
